@@ -48,7 +48,7 @@ PROPERTIES = {
     level='exploration', exhaustive_claim=False,
     rule='model-based: generated object documents (1..10 keys; ints, strings, bools, doubles, int arrays, nested objects; MsgPack also integer / float / timestamp keys) in an envelope [padding 0..600, object, sentinel]; generated request scripts (any order, repeats, absent keys with int / string / optional / atomic / unique_ptr targets, nested object with sub-script, array read for j <= n elements, VisitKeys, early stop) executed through the public Serialize(scope, key, value) API; 4 archives x memory / stringstream / short-read stream; oracle = the document as a map + the sentinel behind the object',
     assumptions=TRUSTED + ['keys are unique, NUL-free; XML keys are Names and XML strings non-empty (KF-13)', 'nil / empty CSV cells are "not loaded" by design'],
-    units=[U('c03_scripts', 'c03_field_order.cpp', flavour='asan', libs=['-lpugixml'], quick=dict(cases=50000, shards=8, min_eval=50000), thorough=dict(cases=600000, shards=16, min_eval=1000000)),
+    units=[U('c03_scripts', 'c03_field_order.cpp', flavour='asan', libs=['-lpugixml'], quick=dict(cases=50000, shards=8, min_eval=50000), thorough=dict(cases=2400000, shards=16, min_eval=1000000)),
            U('c03_scripts_chunk32', 'c03_field_order.cpp', flavour='asan32', libs=['-lpugixml'], args=['--skip-prefix', 'kf'], quick=dict(cases=10000, shards=4, min_eval=20000), thorough=dict(cases=300000, shards=8, min_eval=500000))]),
  'C05': dict(
     level='exploration', exhaustive_claim=False,
@@ -60,13 +60,13 @@ PROPERTIES = {
     level='exploration', exhaustive_claim=False,
     rule='object with 10 fields (int32, double, string, vector, e-mail, phone, uint8, nested object, array of objects, map of objects), each with 0..3 runtime-chosen validators out of Required / Range / MinSize / MaxSize / Email / PhoneNumber / custom functors + lambda, default or custom messages; every field present (at, just inside, just outside each bound), absent, null or mismatched-and-skipped; maxValidationErrors in {0,1,2,3,4,8}; 4 archives, memory and streams; oracle = reference model of the documented validator rules predicting failing paths and messages in load order',
     assumptions=TRUSTED + ['array / row positions inside paths are wildcards (the property exempts them)', 'default PhoneNumber messages are only required to start with "Invalid phone number"; e-mail labels starting with a digit and phones with repeated "+" are not generated (documentation is silent)', 'mismatches are generated under the Skip policies (C05 covers the policies themselves)'],
-    units=[U('c17_validation', 'c17_validation.cpp', flavour='asan', libs=['-lpugixml'], quick=dict(cases=50000, shards=8, min_eval=50000), thorough=dict(cases=600000, shards=16, min_eval=1000000))]),
+    units=[U('c17_validation', 'c17_validation.cpp', flavour='asan', libs=['-lpugixml'], quick=dict(cases=50000, shards=8, min_eval=50000), thorough=dict(cases=1800000, shards=16, min_eval=1000000))]),
  'C08': dict(
     level='exploration', exhaustive_claim=False,
     rule='JSON: dynamic trees (null, bool, int64/uint64, finite double/float full range, strings over the full Unicode range, empty/nested containers, any root) and typed fixed-width integers x compact/pretty(padding char x count) x memory/stream x 5 encodings x BOM; forward oracle nlohmann::ordered_json + ref_utf byte decoding; converse: own free-choice emitter (white space, escapes, member order, numeric spelling, encoding, BOM), self-checked against nlohmann. XML: object/array trees of XML Names and XML Chars + typed records with attributes; forward oracle libxml2 infoset; converse: own emitter (entities, character references, CDATA, quote style, child order, white space, declaration, encoding, BOM), self-checked against libxml2',
     assumptions=TRUSTED + ['nlohmann::json 3.x and libxml2 are the independent standard parsers', 'BOM-less UTF-16/32 streams start with two ASCII characters and hold no U+0000 (soundness rule 1)', 'integers are re-spelled as integers only (soundness rule 3)', 'XML: no CR, no empty / blank-only text, no empty containers (recorded findings KF-12, KF-13), keys are XML Names (KF-44)'],
-    units=[U('c08_json', 'c08_json.cpp', flavour='asan', libs=['-lpugixml'], quick=dict(cases=40000, shards=8, min_eval=50000), thorough=dict(cases=600000, shards=16, min_eval=1000000)),
-           U('c08_xml', 'c08_xml.cpp', flavour='asan', cflags=['-I/usr/include/libxml2'], libs=['-lpugixml', '-lxml2'], quick=dict(cases=40000, shards=8, min_eval=50000), thorough=dict(cases=600000, shards=16, min_eval=1000000)),
+    units=[U('c08_json', 'c08_json.cpp', flavour='asan', libs=['-lpugixml'], quick=dict(cases=40000, shards=8, min_eval=50000), thorough=dict(cases=1200000, shards=16, min_eval=1000000)),
+           U('c08_xml', 'c08_xml.cpp', flavour='asan', cflags=['-I/usr/include/libxml2'], libs=['-lpugixml', '-lxml2'], quick=dict(cases=40000, shards=8, min_eval=50000), thorough=dict(cases=1200000, shards=16, min_eval=1000000)),
            U('c01_kf', 'c01_kf.cpp', flavour='asan', libs=['-lpugixml'], args=['--prop', 'kf12*,kf13*,kf44*'], quick=dict(cases=60, shards=1, min_eval=10), thorough=dict(cases=600, shards=1, min_eval=10))]),
  'C19': dict(
     level='exploration', exhaustive_claim=False,
@@ -82,40 +82,40 @@ PROPERTIES = {
     level='exploration', exhaustive_claim=False,
     rule='generated tables (1..8 columns, 1..12 rows; cells: arbitrary Unicode incl. separators, quotes, CR, LF, CRLF, blanks, U+0000, long cells, numbers, booleans, ISO dates, empty) x 5 separators x memory/stream x 5 encodings x BOM; forward: strict RFC 4180 reference parser recovers header + cells; converse: reference writer with free quoting / LF or CRLF / optional final break / permuted columns loads to the same rows (maps and typed by-name struct); ragged records rejected',
     assumptions=TRUSTED + ['ref_csv.h (RFC 4180 ABNF), ref_utf.h; both self-tested', 'BOM-less streams: headers start with an ASCII character and cells hold no U+0000', 'recorded finding KF-14 (empty table) excluded: tables have >= 1 row'],
-    units=[U('c09_csv', 'c09_csv.cpp', flavour='asan', libs=['-lpugixml'], quick=dict(cases=50000, shards=8, min_eval=50000), thorough=dict(cases=1000000, shards=16, min_eval=1000000)),
+    units=[U('c09_csv', 'c09_csv.cpp', flavour='asan', libs=['-lpugixml'], quick=dict(cases=50000, shards=8, min_eval=50000), thorough=dict(cases=3000000, shards=16, min_eval=1000000)),
            U('c01_kf', 'c01_kf.cpp', flavour='asan', libs=['-lpugixml'], args=['--prop', 'kf14*'], quick=dict(cases=60, shards=1, min_eval=10), thorough=dict(cases=600, shards=1, min_eval=10))]),
  'C10': dict(
     level='exploration', exhaustive_claim=False,
     rule='documents of all four archives (arbitrary trees in an envelope with 0..600 bytes of padding that shifts every token across the 256-byte chunk boundary; CSV tables with long cells), valid and mutated (substitute / delete / insert / truncate), loaded from memory and from stringstream / short-read (1..k bytes per call) / non-seekable streams; saving to a UTF-8 BOM-less stream vs memory; oracle = differential (same value, or rejection by both)',
     assumptions=TRUSTED + ['in-memory input is UTF-8 without BOM (the common domain of both entry points); mutated text documents stay well-formed UTF-8 (KF-52 recorded and witnessed)', 'non-seekable streams get in-order (unmodified) documents only', 'error categories: loaded / rejected by a SerializationException / validation / non-library exception'],
-    units=[U('c10_diff', 'c10_mem_vs_stream.cpp', flavour='asan', libs=['-lpugixml'], quick=dict(cases=60000, shards=8, min_eval=50000), thorough=dict(cases=1000000, shards=16, min_eval=1000000)),
+    units=[U('c10_diff', 'c10_mem_vs_stream.cpp', flavour='asan', libs=['-lpugixml'], quick=dict(cases=60000, shards=8, min_eval=50000), thorough=dict(cases=3000000, shards=16, min_eval=1000000)),
            U('c10_diff_chunk32', 'c10_mem_vs_stream.cpp', flavour='asan32', libs=['-lpugixml'], args=['--skip-prefix', 'kf'], quick=dict(cases=15000, shards=4, min_eval=20000), thorough=dict(cases=500000, shards=8, min_eval=500000))]),
  'C13': dict(
     level='exploration', exhaustive_claim=False,
     rule='generated texts whose multi-unit characters sit around the chunk boundary x 5 encodings x BOM on/off x target char types {char, char16_t, char32_t} x chunk sizes {32, 64, 256} x {stringstream, short-read streambuf} x both policies; every truncation point (sampled, biased to the last characters); CEncodedStreamWriter; DetectEncoding on strings and streams; CSV/JSON/XML documents written by the independent encoder loaded through the stream entry points; oracle = ref_utf + bounded call counter',
     assumptions=TRUSTED + ['ref_utf.h', 'BOM-less texts start with an ASCII non-NUL character and hold no U+0000 (detection is undecidable otherwise)', 'UTF-8 -> char is a byte copy by design (not judged for truncation)', 'hang = more ReadChunk calls than input bytes + 64 (a call counter, not a clock)'],
-    units=[U('c13_streams', 'c13_encoded_streams.cpp', flavour='asan', libs=['-lpugixml'], quick=dict(cases=150000, shards=8, min_eval=100000), thorough=dict(cases=2000000, shards=16, min_eval=1000000))]),
+    units=[U('c13_streams', 'c13_encoded_streams.cpp', flavour='asan', libs=['-lpugixml'], quick=dict(cases=150000, shards=8, min_eval=100000), thorough=dict(cases=8000000, shards=16, min_eval=1000000))]),
  'C06': dict(
     level='exploration', exhaustive_claim=True,
     rule='exhaustive 8/16-bit integers of every integer type and all format thresholds; generated values of 90 typed models (floats incl. NaN payloads/Inf/subnormals, strings/bin/arrays/maps at length thresholds, negative and sub-second chrono values, classes with base class (first, in the middle, two bases) and conditional member, maps with every key type); oracle = independent strict MessagePack decoder + independently derived tree + minimal-format rule + memory == stream bytes',
     assumptions=TRUSTED + ['ref_msgpack.h (from the MessagePack specification; vectors cross-checked with msgpack-python 1.1.1), self-tested at start', 'ties between integer families of equal size are allowed', 'recorded finding KF-35 (timestamp 96 field order) is excused only for that field order and witnessed'],
-    units=[U('c06_g%d' % g, 'c06_msgpack_write.cpp', flavour='asan', cflags=['-DMODEL_GROUP=%d' % g], libs=['-lpugixml'], quick=dict(cases=120000, shards=5, min_eval=50000), thorough=dict(cases=1500000, shards=5, min_eval=500000)) for g in (0, 1, 2)]),
+    units=[U('c06_g%d' % g, 'c06_msgpack_write.cpp', flavour='asan', cflags=['-DMODEL_GROUP=%d' % g], libs=['-lpugixml'], quick=dict(cases=120000, shards=5, min_eval=50000), thorough=dict(cases=6000000, shards=5, min_eval=500000)) for g in (0, 1, 2)]),
  'C07': dict(
     level='exploration', exhaustive_claim=False,
     rule='typed model values and arbitrary-shape trees encoded by an independent encoder with adversarial format choices (any legal width / integer family / float width / timestamp layout / key order), every strict prefix (sampled) and single-byte corruptions at node, length and payload offsets; both readers (memory, stream incl. short reads); oracle = independent reference decoder',
     assumptions=TRUSTED + ['ref_msgpack.h encoder/decoder, self-tested', 'bytes after the first complete object are not examined by the loader (not judged)', 'nil is "not loaded" by design', 'non-finite floats keep their width (C04 rule)', 'recorded finding KF-35 excluded for the 96-bit layout and witnessed'],
-    units=[U('c07_g%d' % g, 'c07_msgpack_read.cpp', flavour='asan', cflags=['-DMODEL_GROUP=%d' % g], libs=['-lpugixml'], quick=dict(cases=100000 if g == 0 else 80000, shards=5, min_eval=50000), thorough=dict(cases=1500000, shards=5, min_eval=500000)) for g in (0, 1, 2)]),
+    units=[U('c07_g%d' % g, 'c07_msgpack_read.cpp', flavour='asan', cflags=['-DMODEL_GROUP=%d' % g], libs=['-lpugixml'], quick=dict(cases=100000 if g == 0 else 80000, shards=5, min_eval=50000), thorough=dict(cases=5000000, shards=5, min_eval=500000)) for g in (0, 1, 2)]),
  'C01': dict(
     level='exploration', exhaustive_claim=False,
     rule='generated typed model values (90 types: fundamentals, 4 string widths, enum, classes with base class / external serialization, chrono, every std container / optional / smart pointer / tuple / pair, nested) x 4 archives x {root, object member} x {memory, stringstream, short-read stream} x 5 encodings x BOM x pretty-print/padding x CSV separators; oracle = round trip (deep equality, floats bitwise) + load-save-load fixed point',
     assumptions=TRUSTED + ['values restricted to what the format can carry: XML 1.0 characters and Names, CSV = flat rows (no null/empty distinction for strings), JSON floats finite', 'BOM-less streams: no U+0000 in the text (detection is undecidable otherwise)',
                  'recorded findings KF-12, KF-13, KF-14, KF-34, KF-44 are excluded by construction and witnessed on every run'],
-    units=_c01_units('c01', 'roundtrip*', 40000, 250000) + [U('c01_kf', 'c01_kf.cpp', flavour='asan', libs=['-lpugixml'], quick=dict(cases=300, shards=1, min_eval=100), thorough=dict(cases=3000, shards=1, min_eval=100))]),
+    units=_c01_units('c01', 'roundtrip*', 40000, 1500000) + [U('c01_kf', 'c01_kf.cpp', flavour='asan', libs=['-lpugixml'], quick=dict(cases=300, shards=1, min_eval=100), thorough=dict(cases=3000, shards=1, min_eval=100))]),
  'C18': dict(
     level='exploration', exhaustive_claim=False,
     rule='the same typed models: a document saved from value A is loaded into a target already holding an independent random value B of the same type (longer / shorter / empty / other keys / null / engaged), result must equal A; 4 archives, root and member positions, memory and streams; CSV rows into a populated vector',
     assumptions=TRUSTED + ['documents are complete for the element schema (an absent member legitimately keeps its old value, C03)', 'recorded findings KF-12, KF-13, KF-44 excluded and witnessed'],
-    units=_c01_units('c18', 'reload*', 30000, 200000) + [U('c18_maps', 'c18_map_modes.cpp', flavour='asan', libs=['-lpugixml'], quick=dict(cases=6000, shards=2, min_eval=1000), thorough=dict(cases=100000, shards=4, min_eval=10000)),
+    units=_c01_units('c18', 'reload*', 30000, 1200000) + [U('c18_maps', 'c18_map_modes.cpp', flavour='asan', libs=['-lpugixml'], quick=dict(cases=6000, shards=2, min_eval=1000), thorough=dict(cases=600000, shards=4, min_eval=10000)),
            U('c01_kf', 'c01_kf.cpp', flavour='asan', libs=['-lpugixml'], args=['--prop', 'kf12*,kf13*,kf44*'], quick=dict(cases=200, shards=1, min_eval=50), thorough=dict(cases=2000, shards=1, min_eval=50))]),
 
  'C04': dict(
@@ -124,8 +124,8 @@ PROPERTIES = {
     assumptions=TRUSTED + ['numeric_model.h (exact __int128 / long double arithmetic), self-tested at start', 'a value of another kind (bool/integer/float) than the target may be reported by the mismatched-types policy in typed archives; text archives erase kinds, so an unrepresentable text value may be reported by either policy',
                  'the numeric value carried by a text archive for a float source is the decimal the library printed', 'NaN/Inf: same class and sign, or reported'],
     units=[U('c04_direct', 'c04_numbers.cpp', flavour='asan', cflags=['-DC04_PART=1'], needs_lib=False,
-             quick=dict(cases=40000, shards=4, min_eval=100000), thorough=dict(cases=1500000, shards=8, min_eval=1000000)),
-           _c04(2, 'msgpack', 24000, 800000), _c04(3, 'json', 12000, 400000), _c04(4, 'xml', 12000, 400000), _c04(5, 'csv', 8000, 250000)]),
+             quick=dict(cases=40000, shards=4, min_eval=100000), thorough=dict(cases=6000000, shards=8, min_eval=1000000)),
+           _c04(2, 'msgpack', 24000, 3200000), _c04(3, 'json', 12000, 1600000), _c04(4, 'xml', 12000, 1600000), _c04(5, 'csv', 8000, 1000000)]),
 
  'C15': dict(
     level='exploration', exhaustive_claim=False,
@@ -134,7 +134,7 @@ PROPERTIES = {
     units=[U('c15_sweep', 'c15_iso_parse.cpp', flavour='opt', needs_lib=False, args=['--only-sweeps'],
              quick=dict(shards=16, min_eval=5000000), thorough=dict(shards=16, min_eval=50000000, timeout=5400)),
            U('c15_pbt', 'c15_iso_parse.cpp', flavour='asan', needs_lib=False, args=['--no-sweeps'],
-             quick=dict(cases=25000, shards=16, min_eval=100000), thorough=dict(cases=800000, shards=16, min_eval=1000000)),
+             quick=dict(cases=25000, shards=16, min_eval=100000), thorough=dict(cases=1600000, shards=16, min_eval=1000000)),
            U('c14_kf', 'c14_chrono_text.cpp', flavour='opt', libs=['-lpugixml'], args=['--no-sweeps', '--prop', 'kf27*'],
              quick=dict(cases=800, shards=1, min_eval=100), thorough=dict(cases=8000, shards=1, min_eval=100))]),
 
@@ -145,7 +145,7 @@ PROPERTIES = {
     units=[U('c14_sweep', 'c14_chrono_text.cpp', flavour='opt', libs=['-lpugixml'], args=['--only-sweeps'],
              quick=dict(shards=16, min_eval=30000000), thorough=dict(shards=16, min_eval=30000000)),
            U('c14_pbt', 'c14_chrono_text.cpp', flavour='asan', libs=['-lpugixml'], args=['--no-sweeps', '--skip-prefix', 'kf'],
-             quick=dict(cases=40000, shards=8, min_eval=100000), thorough=dict(cases=1500000, shards=16, min_eval=1000000)),
+             quick=dict(cases=40000, shards=8, min_eval=100000), thorough=dict(cases=8000000, shards=16, min_eval=1000000)),
            U('c14_kf', 'c14_chrono_text.cpp', flavour='opt', libs=['-lpugixml'], args=['--no-sweeps', '--prop', 'kf*'],
              quick=dict(cases=1200, shards=1, min_eval=100), thorough=dict(cases=12000, shards=1, min_eval=100))]),
 
@@ -166,7 +166,7 @@ PROPERTIES = {
     units=[U('c12_sweep', 'c12_utf_illformed.cpp', flavour='opt', needs_lib=False, args=['--only-sweeps'],
              quick=dict(shards=16, min_eval=10000000), thorough=dict(shards=16, min_eval=10000000)),
            U('c12_pbt', 'c12_utf_illformed.cpp', flavour='asan', needs_lib=False, args=['--no-sweeps'],
-             quick=dict(cases=4000, shards=8, min_eval=10000), thorough=dict(cases=150000, shards=16, min_eval=100000))]),
+             quick=dict(cases=4000, shards=8, min_eval=10000), thorough=dict(cases=600000, shards=16, min_eval=100000))]),
 
  'C11': dict(
     level='exploration', exhaustive_claim=True,
